@@ -61,6 +61,14 @@ pub trait HC: Codec + 'static + std::panic::RefUnwindSafe + std::panic::UnwindSa
     fn sym_cmp(_a: Self, _b: Self) -> Option<Ordering> {
         None
     }
+    /// `From<Vec<usize>> for Seq<text::Dna>` (only that codec has it)
+    fn seq_from_vec_usize(_ws: Vec<usize>) -> Option<Seq<Self>> {
+        None
+    }
+    /// every comparison entry point of `Seq`: Ord::cmp, PartialOrd::partial_cmp, the four operators, Ord::max / Ord::min
+    fn seq_cmpall(_a: &Seq<Self>, _b: &Seq<Self>) -> Option<String> {
+        None
+    }
     fn kdispatch(op: &str, k: usize, st: &str, a: &crate::kmer::KArgs<Self>) -> crate::eval::R<String>;
     fn kd_dispatch<T>(k: usize, x: &SeqSlice<Self>, cont: &mut dyn FnMut(&SeqSlice<Self>) -> crate::eval::R<T>) -> crate::eval::R<T>;
     fn ofkmer_dispatch(k: usize, x: &SeqSlice<Self>) -> crate::eval::R<Seq<Self>>;
@@ -134,6 +142,24 @@ macro_rules! ord_methods {
         fn sym_cmp(a: Self, b: Self) -> Option<Ordering> {
             Some(a.cmp(&b))
         }
+        fn seq_cmpall(a: &Seq<Self>, b: &Seq<Self>) -> Option<String> {
+            let o = |x: Ordering| match x {
+                Ordering::Less => "lt",
+                Ordering::Equal => "eq",
+                Ordering::Greater => "gt",
+            };
+            Some(format!(
+                "{} {} {} {} {} {} {} {}",
+                o(a.cmp(b)),
+                a.partial_cmp(b).map(o).unwrap_or("none"),
+                a < b,
+                a <= b,
+                a > b,
+                a >= b,
+                crate::eval::content(&Ord::max(a.clone(), b.clone())),
+                crate::eval::content(&Ord::min(a.clone(), b.clone()))
+            ))
+        }
     };
 }
 
@@ -152,7 +178,8 @@ impl HC for Dna {
 
 impl HC for Iupac {
     fn sym_to_forms(s: Self) -> String {
-        format!("{:02x}", s.to_comp().to_bits())
+        // copying complement; `From<Iupac> for u8`
+        format!("{:02x}{:02x}", s.to_comp().to_bits(), u8::from(s))
     }
     const NAME: &'static str = "iupac";
     const HAS_COMP: bool = true;
@@ -163,6 +190,11 @@ impl HC for Iupac {
 }
 
 impl HC for Amino {
+    fn sym_to_forms(s: Self) -> String {
+        // `From<Amino> for u8`; `Display for Amino`
+        let d = format!("{s}");
+        format!("{:02x}{}", u8::from(s), crate::ast::hex(d.as_bytes()))
+    }
     const NAME: &'static str = "amino";
     const HAS_COMP: bool = false;
     const HAS_MASK: bool = false;
@@ -171,6 +203,13 @@ impl HC for Amino {
 }
 
 impl HC for text::Dna {
+    fn sym_to_forms(s: Self) -> String {
+        // `From<text::Dna> for u8`
+        format!("{:02x}", u8::from(s))
+    }
+    fn seq_from_vec_usize(ws: Vec<usize>) -> Option<Seq<Self>> {
+        Some(Seq::<text::Dna>::from(ws))
+    }
     const NAME: &'static str = "text";
     const HAS_COMP: bool = false;
     const HAS_MASK: bool = false;
